@@ -222,7 +222,7 @@ fn check(c: &Case, st: &mut Stats) -> CheckResult {
 fn build_pair_cases(cfg: &Cfg) -> Vec<Case> {
     let cat = prelude_catalogue();
     let mut cases = vec![];
-    let reps = cfg.tier.pick(3u64, 20u64);
+    let reps = cfg.tier.pick(8u64, 30u64);
     for (pi, (ua, ub)) in cat.same_dimension_pairs().into_iter().enumerate() {
         for rep in 0..reps {
             let salt = splitmix64(cfg.seed ^ 0xC04 ^ (pi as u64) << 8 ^ rep);
@@ -398,13 +398,13 @@ fn build_compound(c: &Compound) -> Case {
 fn run(cfg: &Cfg) -> Report {
     let mut rep = Report::new(
         cfg,
-        "(1) every ordered pair of same-dimension prelude units (complete enumeration) with magnitudes 1, 0, negative, large and random, seed-dependent alias/prefix spellings, optional intermediate unit and optional right-hand magnitude k; (2) proptest-generated compound unit expressions (products of 1-4 unit powers with integer and half-integer exponents) converted to an expression of equal dimension by construction (each unit replaced by a same-dimension unit, kept identical to exercise common-factor cancellation, or expanded by its own definition; factors shuffled). Oracle: the raw unit of `q -> U` is exactly U's factor list and the displayed unit is U's; the RefDim physical value is unchanged (1e-9); converting back restores the magnitude (1e-9, exactly for 0); converting via an intermediate agrees (1e-9); `q -> k U` is displayed as `n × k U` with n·k·U = q. non-trivial = source and target unit differ; distinct = source text",
+        "(1) every ordered pair of same-dimension prelude units (complete enumeration) with magnitudes 1, 0, negative, large and random, seed-dependent alias/prefix spellings, optional intermediate unit and optional right-hand magnitude k; (2) proptest-generated compound unit expressions (products of 1-4 unit powers with integer and half-integer exponents) converted to an expression of equal dimension by construction (each unit replaced by a same-dimension unit, kept identical to exercise common-factor cancellation, or expanded by its own definition; factors shuffled). Oracle: the raw unit of `q -> U` is exactly U's factor list and the displayed unit is U's; the RefDim physical value is unchanged (1e-9); converting back restores the magnitude (1e-9, exactly for 0); converting via an intermediate agrees (1e-9); `q -> k U` is displayed as `n × k U` with n·k·U = q; `(q -> k U) -> unit of q` is displayed in q's unit with q's value. non-trivial = source and target unit differ; distinct = source text",
     );
     let pairs = build_pair_cases(cfg);
     rep.extra("pair_cases", json!(pairs.len()));
     rep.absorb(run_enumerated(cfg, "pairs", &pairs, |c| serde_json::to_value(c).unwrap(), check));
     if !rep.failed() {
-        let cases = cfg.tier.pick(600u32, 30000u32);
+        let cases = cfg.tier.pick(3000u32, 40000u32);
         rep.absorb(run_proptest(
             cfg,
             "compound",
